@@ -195,6 +195,14 @@ CLAIMS = {
             "it is monitored by the Go race detector on those same executions (harness and CLI built with -race, GOMAXPROCS 1/2/16, seeded delays).",
             "Race freedom only on executed schedules. Trusted: Go race detector, hooks.", "TLA+ spec + TLC deadlock/liveness checking + schedule replay on -race builds of the real code",
             "DESIGN.md 6/C29"),
+    "C25": ("exploration",
+            "OutputFormat.tla generates typed result rows under the TLC seed (string token catalogue with every control-character class, quotes, separators, JSON "
+            "look-alikes, non-printable and astral runes, invalid UTF-8; extreme ints; float literals incl. denormals, 2^63, 2^64; nested lists/objects/tuples; "
+            "nullable and mixed unions; multi-row batches under one schema) together with JsonView / CsvView, the document each line must decode to. The rows go "
+            "through the real JSONFormatter / CSVFormatter in-process and through the binary (-o json / -o csv over JSON and CSV input files); strict decoders "
+            "(exact number tokens, RFC 4180 on bytes) compare with the view. One defect repaired (invalid JSON escapes), one recorded (NaN/Inf).",
+            "Times/durations only required to be strings; two object shapes never meet in one union. Trusted: Python json, the CSV state machine.",
+            "spec-generated universe (TLA+ views exported by TLC) replayed through the real formatters and CLI with decoding oracles", "DESIGN.md 6/C25"),
 }
 
 NA_DEFAULT = "check not built yet (work in progress; will be claimed once its TLA+ spec and conformance harness are committed)"
